@@ -27,6 +27,30 @@ def run(tier):
         # ---- values x renderings
         vals = [G.gen_value(rng, cfg, depth=rng.choice([2, 3, 4, 5, 8]) if rng.random() < 0.9 else 8, width=rng.choice([3, 5])) for _ in range(nvals)]
         docs = [G.render_doc(rng, v, cfg, rich=rng.random() < 0.7) for v in vals]
+        # every scalar kind as the leaf of the deepest permitted nesting (and one level less), inside each collection kind
+        limit = 100
+        leaves = [("symf", "NaN"), ("symf", "Inf"), ("symf", "-Inf"), ("float", "1.5"), ("int", 7), ("str", b"s\n"), ("char", 0x61), ("kw", "n", "k"), ("sym", None, "s"),
+                  ("nil",), ("bool", True), ("bigint", False, "99999999999999999999"), ("bigdec", False, "1.5")]
+        for leaf in leaves:
+            for depth in (limit, limit - 1):
+                for kind in ("vec", "list", "mixed"):
+                    v = leaf
+                    for lvl in range(depth):
+                        k2 = kind if kind != "mixed" else ("vec", "list", "set", "map")[lvl % 4]
+                        v = ("map", [(("kw", None, "k"), v)]) if k2 == "map" else (k2, [v])
+                    vals.append(v)
+                    docs.append(G.render_doc(rng, v, cfg, rich=False))
+        # identifiers, keywords and strings made of long runs of non-ASCII bytes, after runs of blanks of every length
+        # (whole 16-byte blocks of blanks and bytes >= 0x80)
+        words = ["中国人民日报", "αβγδεζηθικλμ", "日本語のテキスト", "ééééééééé", "𝔘𝔫𝔦𝔠𝔬𝔡𝔢", "ÿ" * 17, "\u00a0\u00a0x"]
+        for w in words:
+            for nsp in (0, 1, 3, 4, 5, 15, 16, 17, 33):
+                for v in (("sym", None, w), ("kw", None, w), ("kw", w, "k"), ("str", w.encode())):
+                    for wrap in ("vec2", "map"):
+                        vv = ("vec", [v, ("int", 1)]) if wrap == "vec2" else ("map", [(("kw", None, "title"), v)])
+                        vals.append(vv)
+                        body = G.render(rng, v, cfg, rich=False)
+                        docs.append((b"[" + b" " * nsp + body + b" 1]") if wrap == "vec2" else (b"{:title" + b" " * (nsp + 1) + body + b"}"))
         # the list-based model computes positions by walking the remaining input (quadratic in the document size)
         cap = 25000 if tier == "quick" else 150000
         keep = [i for i, d in enumerate(docs) if len(d) <= cap]
